@@ -64,6 +64,7 @@ func NewAttestationPool(spec *common.Spec) *AttestationPool {
 		datas:              make(map[common.Root]*IndexedAttData),
 		individual:         make(map[Assignment]*AttRef),
 		aggregate:          make(map[common.Root]*MinAggregates),
+		aggPerValidator:    make(map[Assignment]common.Root),
 		maxExtraAggregates: 10, // TODO: worth tuning
 	}
 }
